@@ -131,7 +131,7 @@ Inductive effect :=
 | ERetransStop
 | EArmTimer
 | EPayFee (payreq scid : string) (res : option string)
-| EPayClaim (payreq scid : string) (max_total_cltv : Z) (res : option string)
+| EPayClaim (payreq scid : string) (max_total_cltv : Z) (tip : Z) (res : option string)   (* tip: chain height polled just before *)
 | ERecoverPay (payreq : string) (res : option string)
 | EValidate (taker maker hash : string) (amount csv : Z) (blinding hex : string) (res : option bool)
 | EMkInvoice (kind : pay_kind) (msat : Z) (preimage : string) (expiry cltv : Z)
@@ -151,8 +151,6 @@ Record world := mkWorld {
   w_wallet_asset : string; w_wallet_network : string; w_csv_height : Z;
   w_premium : option Z;                               (* premium.Setting.Compute for this peer/asset/direction/amount *)
   w_own_pubkey : string;                              (* pubkey of the swap's private key (crypto not modelled) *)
-  (* pure function of the invoice string *)
-  w_decode : list (string * (string * Z * Z));        (* payreq -> (hash, msat, final cltv); absent = error *)
   w_hashes : list (string * string);                  (* preimage -> sha256, for the preimages in play *)
   (* queues *)
   q_height : list (option Z);
